@@ -16,7 +16,7 @@ overwrite of a name already stored at a point - an output block whose names inte
 point is skipped), and all exports go to one file/node.
 
 Deterministic enumeration; witness = (node path, sequence of operation ids).
-Bound (reported in the evidence as ``bounded_standins``): all sequences of length <= 4 over 3 points x 4 output
+Bound (reported in the evidence as ``bounded_standins``): all sequences of length <= 4 over 3 points x 5 output
 blocks + {export, export-append}, root node and a nested node: see ``sequences``.
 """
 from __future__ import annotations
@@ -35,6 +35,7 @@ OUTS = [
     {"g": np.array([1.0, -2.0]), "a": 0.25},
     {"@f": np.array([[1.0, 2.0]]), "z": 7.0, "b": np.array([4.0])},
     {"c": -3.0, "y": np.array([0.0])},
+    {},  # a point stored without any output (still a point of the history: it must be exported at its index)
 ]
 OPS = [("store", p, o) for p in range(len(POINTS)) for o in range(len(OUTS))] + [("export", 0, 0), ("export", 1, 0)]
 NODES = ["", "node/sub"]
